@@ -293,7 +293,7 @@ def C13(ctx):
     q = ctx.quick
     pipeline_mc(ctx, q)
     mc(ctx, "SigV4", "MC_SigV4_bug_scope_before_window.cfg", expect_violation="Precedence", label="neg-scope-before-window")
-    fn_campaign(ctx, [("errtable", 0)], [])
+    fn_campaign(ctx, [("errtable", 0), ("foldsize", 0)], [])
     req_campaign(ctx, [("defects", 2 if q else 14), ("scripts", 1 if q else 0), ("degenerate", 0), ("akid", 0),
                        ("reqfold", 0), ("ioerr", 0), ("spell", 0), ("dup", 0), ("cfgmix", 0, 13 if q else 1)])
     core_campaign(ctx)
